@@ -11,6 +11,14 @@ RULE = ('compute_features on generated signals at 8 sampling rates (the wide C01
         'in {2, 4, 1/2} with every setting given in seconds (n_seconds of either filter, min_burst_duration) divided by c; '
         '35 % of the cases are preceded (and some interleaved) in the same process by 1-4 calls of the public helpers of '
         'bycycle.utils.dataframes with every documented flag value on scratch tables (`history`). Column sets of the base, '
+        'Independently of everything else ~30 % of the cases make the judged analysis on an ndarray object that was '
+        'first filled with another signal of the same length and analysed once with the same option objects, then '
+        'refilled in place (`prebuffer`); ~20 % pass every array of the case read-only (WRITEABLE flag cleared); ~20 % '
+        "make 1-2 rejected calls (mis-spelt key put into the caller's own find_extrema_kwargs / threshold_kwargs and "
+        "taken out again, invalid f_range, centre or burst method) on the case's own array and option objects directly "
+        'before the judged analysis; a read-only case passes the rescaled array read-only as well (an in-place '
+        'rescaling unlocks the array for the edit only); all oracles and the model comparison apply to the judged '
+        'analysis unchanged (counters in the evidence). '
         'rescaled and fs-replayed tables compared; each base table compared with the Coq pipeline model (which has no fs '
         'argument at all); non-trivial = >= 3 rows and a label of each value')
 ASSUMPTIONS = ['power-of-two amplitude factors (exact in binary64 absent over/underflow)',
@@ -63,7 +71,10 @@ def fs_replay_accepted(c):
 
 
 run_impl = pipeline.run_pipe
-oracle = pipeline.oracle_scale
+
+
+def oracle(c, o):
+    return pipeline.with_context(c, pipeline.oracle_scale(c, o))
 
 
 def nontrivial(c, o):
